@@ -118,6 +118,15 @@ fn state_zoo() -> Vec<(u32, u32, Vec<Op>)> {
     let smp = |v: &[u32]| api(Call::SetMode(v.to_vec(), true));
     let rmp = |v: &[u32]| api(Call::ResetMode(v.to_vec(), true));
     let mut z: Vec<(u32, u32, Vec<Op>)> = vec![];
+    // a combining mark that landed in the placeholder of a wide character, whose lead was then removed or
+    // overwritten: a visible cell whose text starts with a zero-width character
+    z.push((6, 3, vec![dr("\u{4e2d}"), dr("\u{301}"), cup(1, 1), a(Call::DeleteCharacters(Some(1)))]));
+    z.push((6, 3, vec![dr("\u{4e2d}"), dr("\u{301}"), cup(1, 1), dr("x"), cup(1, 1)]));
+    z.push((6, 3, vec![dr("a\u{4e2d}"), dr("\u{308}\u{301}"), cup(1, 2), a(Call::EraseCharacters(Some(1))), cup(1, 1)]));
+    // a SPACE written with reverse off while the screen is in reverse video (it equals CharOpts::default(), not
+    // default_char()), followed by text, cursor in front of it
+    z.push((8, 3, vec![smp(&[5]), dr("ab"), a(Call::Sgr(vec![27])), dr(" c"), cup(1, 1)]));
+    z.push((8, 3, vec![smp(&[5]), a(Call::Sgr(vec![27])), dr(" "), a(Call::Sgr(vec![7])), dr("d "), a(Call::Sgr(vec![27])), dr(" "), cup(1, 2)]));
     // tab stops left beyond a narrowed screen, and HT already taken from there
     z.push((20, 3, vec![a(Call::Resize(Some(3), Some(5))), a(Call::Tab)]));
     z.push((20, 3, vec![cup(1, 18), a(Call::SetTabStop), a(Call::Resize(Some(3), Some(10))), cup(1, 9), a(Call::Tab)]));
@@ -482,6 +491,54 @@ fn nested_saves_then_shrink() -> Vec<Session> {
         ops.push(api(Call::Display));
         n += 1;
         out.push(sess(format!("c14shrink{}", n), 80, 3, ops));
+    }
+    out
+}
+
+
+/// Characters that LOOK like members of a class of the grammar but are not: non-ASCII digits, fullwidth
+/// and look-alike separators, superscripts - inside CSI and OSC sequences, in both modes, and as bytes in
+/// 8-bit mode.  Only ASCII digits are digits; everything else is a final (or payload).
+fn impostor_sessions() -> Vec<Session> {
+    let imp: Vec<char> = vec!['\u{663}', '\u{b2}', '\u{b9}', '\u{bc}', '\u{ff11}', '\u{969}', '\u{2460}', '\u{1d7d8}', '\u{ff1b}', '\u{37e}',
+                              '\u{ff1f}', '\u{6f3}', '\u{e9}', '\u{2075}'];
+    let mut out = vec![];
+    let mut n = 0;
+    for utf8 in [true, false] {
+        for x in &imp {
+            let templates: Vec<String> = vec![
+                format!("\x1b[{}B", x), format!("\x1b[1{}B", x), format!("\x1b[{}1B", x), format!("\x1b[{};2H", x), format!("{}{}m", '\u{9b}', x),
+                format!("\x1b[?{}h", x), format!("\x1b[1;{}r", x), format!("\x1b]{};t\x07", x), format!("\x1b]2{}t\x07", x),
+                format!("\x1b[3{}8;5;1m", x),
+            ];
+            let mut ops = vec![Op::Utf8(utf8)];
+            for t in templates {
+                ops.push(Op::Feed(t));
+                ops.push(Op::Feed("z".into()));
+            }
+            n += 1;
+            out.push(Session { columns: 6, lines: 2, bytes: false, events_only: true, id: format!("c03imp{}", n), ops });
+        }
+    }
+    // the same as bytes in 8-bit mode (0xB2 0xB9 0xBC are numeric in Latin-1) and in UTF-8 mode
+    for eight in [true, false] {
+        let mut ops = vec![];
+        if eight {
+            ops.push(Op::Charset("@".into()));
+        }
+        for b in [0xb2u8, 0xb3, 0xb9, 0xbc, 0xbd, 0xbe, 0xe9, 0xd9] {
+            let mut seq: Vec<u8> = if eight { vec![0x1b, b'[', b, b'B'] } else { vec![0x1b, b'[', 0xc2, b, b'B'] };
+            seq.extend_from_slice(b"z");
+            ops.push(Op::FeedB(seq));
+            let mut seq2: Vec<u8> = if eight { vec![0x9b, b'1', b, b';', b'2', b'H'] } else { vec![0x1b, b'[', b'1', 0xc2, b, b';', b'2', b'H'] };
+            seq2.extend_from_slice(b"y");
+            ops.push(Op::FeedB(seq2));
+        }
+        ops.push(api(Call::Display));
+        n += 1;
+        let mut se = sess(format!("c03impb{}", n), 8, 3, ops);
+        se.bytes = true;
+        out.push(se);
     }
     out
 }
@@ -1731,6 +1788,9 @@ pub fn generate(prop: &str, tier: &str, seed: u64) -> Vec<Session> {
     out.extend(odd_param_sessions(prop, &mut r));
     if matches!(prop, "C02" | "C03" | "C08" | "C12" | "C01") {
         out.extend(long_param_sessions(prop, &mut r));
+    }
+    if matches!(prop, "C03" | "C05" | "C19" | "C01" | "C02") {
+        out.extend(impostor_sessions());
     }
     if matches!(prop, "C20" | "C11" | "C02" | "C04") {
         out.extend(eightbit_utf8_lookalikes());
